@@ -40,6 +40,18 @@ CHECKS = {
     'C20': ('exploration', 'runtime monitor: subprocess runs of mibdump.py / mibcopy.py judged by exit code, the tool\'s own parsed report, directory snapshots and an inotify event stream (dry runs), for all permutations of mibcopy sources',
             'On-disk sets with healthy / missing / broken members and alias files x formats x option combinations; mibcopy is run for every permutation of 2-4 source arguments. Exploration over generated sets; each run is a real CLI process.',
             'Trusted: the fixed report headings; inotifywait delivers events (proved per window by a probe file and by positive-control runs).', '5/C20'),
+    'C02': ('exploration', 'runtime monitor: model-derived expected tree + metamorphic layout invariance over real parser runs in all three dialects',
+            'A grammar-directed generator chooses every optional clause independently; each model is rendered under several random layouts and parsed by the real parser; the tree is compared with the tree built from the model and with the trees of the other layouts.',
+            'Trusted: the expected-tree builder encodes the documented shape of the grammar actions; the layout generator never inserts a token.', '5/C02'),
+    'C11': ('exploration', 'runtime monitor: mutation bookkeeping oracle (must-fail prefixes, exact line of inserted bad tokens) + generic error-class / line-range / logical-progress monitors on every parse',
+            'Every token-level prefix and sampled character-level prefixes of generated texts, insertions with a known offending position, single-token mutations and character noise under all dialects; a counter on lexer entries replaces wall-clock for termination.',
+            'Trusted: token spans recorded by the renderer; LALR never shifts an erroneous token.', '5/C11'),
+    'C12': ('exploration', 'runtime monitor: differential long-lived vs fresh instance over input histories; subprocess sweep over PYTHONHASHSEED values',
+            'Histories of valid and failing inputs on one parser / symbol-table generator / JSON / pysnmp generator / MibCompiler are compared element-wise with fresh instances (trees, texts, summaries, error class + line); the same corpus is compiled under 5-7 hash seeds in subprocesses and compared byte for byte.',
+            'Trusted: nothing but equality; the time-stamp comment is masked.', '5/C12'),
+    'C17': ('exploration', 'runtime monitor: cross-dialect differential (inclusion pairs of relaxation subsets) + planted documented breakages judged against the model tree',
+            'Parsers are built from the shipped dialects, single options and random subsets (thorough: all 384 buildable subsets); acceptance and tree identity are compared along every inclusion pair; each documented breakage is planted in the model at a random applicable site and must parse to the corrected tree whenever its option is on.',
+            'Trusted: breakages are planted in the model so the corrected tree is known by construction.', '5/C17'),
 }
 PENDING_REASON = 'check not built yet in this session (work in progress; see DESIGN.md section 5 for the planned monitor)'
 
